@@ -77,7 +77,9 @@ def shape(rng, lib, debut, nt=None, slf=None, const=None, mgen=None, forced_role
     lines.append("pub fn stat(k: u8) -> u8 { k }")
     noncompliant = False
     if slf == "compliant":
-        lines.append("pub fn fin(self, k: u8) -> Option<u8> { None }")
+        # every documented spelling of the compliant return types, path-qualified ones included
+        lines.append("pub fn fin(self, k: u8) -> %s { todo!() }" % rng.choice(["Option<u8>", "Option<u8>", "Result<u8, String>", "Result<u8, &'static str>",
+                     "std::option::Option<u8>", "::std::result::Result<u8, String>", "core::result::Result<u8, ::std::string::String>", "std::result::Result<u8, &'static str>"]))
         noncompliant = not debut
     elif slf == "noncompliant":
         lines.append("pub fn fin(self, k: u8) -> u8 { k }")
